@@ -73,7 +73,11 @@ def rand_expr(rng, names, depth):
         return ' '.join(rand_expr(rng, names, depth - 1) for _ in range(rng.randint(2, 3)))
     if r < .75:
         return '(' + ' | '.join(rand_expr(rng, names, depth - 1) for _ in range(rng.randint(2, 3))) + ')'
-    if r < .85:
+    if r < .80:
+        # repetition written directly on a symbol, as the shipped grammars do (NAME*, 'x'+)
+        sym = rng.choice(TERMS) if rng.random() < .7 or not names else rng.choice(names)
+        return sym + rng.choice('*+')
+    if r < .88:
         return '[' + rand_expr(rng, names, depth - 1) + ']'
     if r < .93:
         return '(' + rand_expr(rng, names, depth - 1) + ')*'
@@ -185,13 +189,13 @@ def replay(w, ctx):
 
 
 def shards(tier, seed):
-    n = 4000 if tier == 'quick' else 200000
+    n = 15000 if tier == 'quick' else 400000
     return ([{'kind': 'suite'}] if tier == 'thorough' else []) + [{'kind': 'shipped'}] + [{'kind': 'random', 'n': n // 15, 'budget_s': 60 if tier == 'quick' else 900} for _ in range(15)]
 
 
 def floors(tier):
     return {'shipped_files': 9, 'checked_rules': 843, 'checked_plans': 25000, 'accepted_by_generator': 500,
-            'rejected_by_generator': 300, 'contract_evals:generate_grammar': 500}
+            'rejected_by_generator': 1000, 'contract_evals:generate_grammar': 500}
 
 
 def extra_coverage(m, tier):
